@@ -182,10 +182,10 @@ SPEC = PropertySpec(
     run=run,
     replay=replay,
     rule=('random non-negative integer density grids up to 6x6x6 (sparse 0-2 counts, 60% empty with counts < 1000, a single visited '
-          'voxel (p = 1), all visited up to 1e6) x T in {1, 300, 1000.5} x threshold in {1e20, 1e7, 0.5, 0.05}. On the implementation: '
+          'voxel (p = 1), all visited up to 1e6, one voxel with 1e9-1e12 samples next to voxels visited < 12 times) x T in {1, 300, 650, 1000.5, 2.5e4, 1e5} x threshold in {1e20, 1e7, 0.5, 0.05}. On the implementation: '
           'all entries finite; exp(-F/kT) = density/total on visited voxels (1e-10) and sums to 1; F = -kT ln p against an '
-          'independent evaluation (1e-9); denser voxel never higher, equal density equal energy, F >= 0; unvisited voxels = largest '
-          'finite double; free_energy_graph nodes = visited voxels with 0 <= F < threshold, unvisited excluded; binary64 Lean twin '
+          'independent evaluation (1e-9); denser voxel never higher, equal density equal energy, F >= 0; unvisited voxels finite, >= 1e20 '
+          '(the default graph threshold) and above every visited voxel; free_energy_graph nodes = visited voxels with 0 <= F < threshold, unvisited excluded; binary64 Lean twin '
           '(1e-12). Non-trivial: >= 2 visited voxels with different density and >= 1 unvisited voxel.'),
     trusted=['np.log / Float.log (libm) are opaque: values are tolerance-compared; the theorems are about Real.log',
              'np.nan_to_num maps +inf to the largest finite double'],
